@@ -136,6 +136,27 @@ def placemarker_sessions(rng, tier):
     return out
 
 
+def long_walks(rng, tier):
+    """walks longer than any bound the undo history may have: back and forth over a row (a period that shares nothing with
+    powers of two); around every size at which a bounded history could be cut (powers of two, round numbers) each move is
+    undone at once and made again, so that 'undo returns to where the move started' is asked at every history length"""
+    out = []
+    for mode, n, zones in ([("Simple", 275, [(120, 135), (245, 275)])] if tier == "quick" else
+                           [("Simple", 275, [(0, 275)]), ("Enhanced", 530, [(60, 70), (120, 135), (250, 262), (505, 530)]), ("Character", 1040, [(995, 1040)]),
+                            ("Simple", 2060, [(2040, 2060)])]):
+        steps = [("pref", "NavMode", mode), ("expr", X.math("<mrow><mi>a</mi><mo>+</mo><mi>b</mi><mo>+</mo><mi>c</mi><mo>+</mo><mi>d</mi></mrow>")), ("cmd", "ZoomIn")]
+        k = 0
+        while k < n:
+            for c in ["MoveNext"] * 6 + ["MovePrevious"] * 6:
+                steps.append(("cmd", c))
+                if any(lo <= k < hi for lo, hi in zones):
+                    steps += [("cmd", "MoveLastLocation"), ("cmd", c)]
+                k += 1
+        steps += [("cmd", "MoveNext"), ("cmd", "MoveLastLocation"), ("cmd", "MoveLastLocation"), ("cmd", "MoveLastLocation"), ("cmd", "MoveNext"), ("cmd", "MoveLastLocation")]
+        out.append(steps)
+    return out
+
+
 def run_sessions(scripts):
     """two passes: first learn the ids (set_mathml only, ids are random per call but we only need their structure:
     the harness session resolves 'setnode' fractions against the ids returned by the preceding set_mathml)."""
@@ -295,6 +316,7 @@ def generate(res):
     ns = 80 if tier == "quick" else 300
     scripts = [gen_session(rng, cmds, tier) for _ in range(ns)]
     scripts += placemarker_sessions(rng, tier)
+    scripts += long_walks(rng, tier)
     plans, out, shape = run_sessions(scripts)
     items, traces = [], []
     for plan, r in zip(plans, out):
